@@ -113,11 +113,79 @@ static const char *const cf_pool[] = {
 #define CF_NPOOL ((int)(sizeof(cf_pool) / sizeof(cf_pool[0])))
 #define CF_NPLAIN 11		/* indices 1..10 are the plain strings */
 
+/*
+ * Per-case extra strings: concatenations of two pool strings, registered by
+ * the generator.  String index CF_NPOOL + k refers to cf_extra[k]; its id is
+ * "x<i>.<j>".
+ */
+#define CF_MAXEXTRA 64
+static struct { int i, j; char *s; } cf_extra[CF_MAXEXTRA];
+static int cf_nextra;
+
+static void cf_extra_reset(void)
+{
+    for (int k = 0; k < cf_nextra; ++k)
+	free(cf_extra[k].s);
+    cf_nextra = 0;
+}
+
+static int cf_extra_add(int i, int j)
+{
+    char *s;
+
+    for (int k = 0; k < cf_nextra; ++k) {
+	if (cf_extra[k].i == i && cf_extra[k].j == j)
+	    return CF_NPOOL + k;
+    }
+    if (cf_nextra >= CF_MAXEXTRA)
+	return i;
+    s = malloc(strlen(cf_pool[i]) + strlen(cf_pool[j]) + 1);
+    strcpy(s, cf_pool[i]);
+    strcat(s, cf_pool[j]);
+    /* a concatenation that happens to equal a pool string keeps the pool id */
+    for (int k = 0; k < CF_NPOOL; ++k) {
+	if (strcmp(s, cf_pool[k]) == 0) {
+	    free(s);
+	    return k;
+	}
+    }
+    for (int k = 0; k < cf_nextra; ++k) {
+	if (strcmp(s, cf_extra[k].s) == 0) {
+	    free(s);
+	    return CF_NPOOL + k;
+	}
+    }
+    cf_extra[cf_nextra].i = i;
+    cf_extra[cf_nextra].j = j;
+    cf_extra[cf_nextra].s = s;
+    return CF_NPOOL + cf_nextra++;
+}
+
+static const char *cf_str(int sid)
+{
+    return sid < CF_NPOOL ? cf_pool[sid] : cf_extra[sid - CF_NPOOL].s;
+}
+
+static void cf_put_sid_index(int sid)
+{
+    if (sid < CF_NPOOL)
+	vt_put("\"s%d\"", sid);
+    else
+	vt_put("\"x%d.%d\"", cf_extra[sid - CF_NPOOL].i,
+		cf_extra[sid - CF_NPOOL].j);
+}
+
 static void cf_put_sid(const char *bytes)
 {
     for (int i = 0; i < CF_NPOOL; ++i) {
 	if (strcmp(bytes, cf_pool[i]) == 0) {
 	    vt_put("\"s%d\"", i);
+	    return;
+	}
+    }
+    for (int k = 0; k < cf_nextra; ++k) {
+	if (strcmp(bytes, cf_extra[k].s) == 0) {
+	    cf_put_sid_index(CF_NPOOL + k);
 	    return;
 	}
     }
@@ -201,10 +269,15 @@ static cf_node_t *cf_new_node(int t)
 }
 
 /* pick a pool index; plain_only restricts to the unsurprising strings */
+static int cf_pairs;			/* 1: every third pick is a concatenation */
+
 static int cf_pick(vt_rng_t *rng, int plain_only, int allow_empty)
 {
     if (plain_only)
 	return 1 + vt_below(rng, CF_NPLAIN - 1);
+    if (cf_pairs && vt_below(rng, 3) == 0)
+	return cf_extra_add(1 + vt_below(rng, CF_NPOOL - 1),
+		1 + vt_below(rng, CF_NPOOL - 1));
     if (allow_empty)
 	return vt_below(rng, CF_NPOOL);
     return 1 + vt_below(rng, CF_NPOOL - 1);
@@ -307,12 +380,16 @@ static void cf_put_tree(const cf_node_t *n)
 	vt_put("{\"t\":\"n\"}");
 	break;
     case CF_SCALAR:
-	vt_put("{\"t\":\"s\",\"v\":\"s%d\"}", n->sid);
+	vt_put("{\"t\":\"s\",\"v\":");
+	cf_put_sid_index(n->sid);
+	vt_put("}");
 	break;
     case CF_MAP:
 	vt_put("{\"t\":\"m\",\"kv\":[");
 	for (int i = 0; i < n->n; ++i) {
-	    vt_put("%s{\"k\":\"s%d\",\"d\":", i ? "," : "", n->keys[i]);
+	    vt_put("%s{\"k\":", i ? "," : "");
+	    cf_put_sid_index(n->keys[i]);
+	    vt_put(",\"d\":");
 	    cf_put_tree(n->kids[i]);
 	    vt_put("}");
 	}
@@ -380,7 +457,7 @@ static int cf_build(cf_setter_t *set, void *ctx, const cf_node_t *n,
     case CF_SCALAR:
 	if (plen == 0)
 	    plen = sprintf(path, ".");
-	snprintf(path + plen, CF_PATHMAX - plen, "=%s", cf_pool[n->sid]);
+	snprintf(path + plen, CF_PATHMAX - plen, "=%s", cf_str(n->sid));
 	bad += set(ctx, 0, path) != 0;
 	break;
     case CF_MAP:
@@ -395,7 +472,7 @@ static int cf_build(cf_setter_t *set, void *ctx, const cf_node_t *n,
 	    if (l > 0)
 		path[l++] = '.';
 	    if (libquote) {
-		char *q = LIB(vnaproperty_quote_key(cf_pool[n->keys[i]]));
+		char *q = LIB(vnaproperty_quote_key(cf_str(n->keys[i])));
 
 		if (q == NULL) {
 		    ++bad;
@@ -405,7 +482,7 @@ static int cf_build(cf_setter_t *set, void *ctx, const cf_node_t *n,
 		l += (int)strlen(q);
 		free(q);
 	    } else {
-		l = (int)(cf_quote_own(cf_pool[n->keys[i]], path + l) - path);
+		l = (int)(cf_quote_own(cf_str(n->keys[i]), path + l) - path);
 	    }
 	    if (n->kids[i]->t == CF_NULL) {
 		strcpy(path + l, "#");
